@@ -16,6 +16,7 @@ theorem wfT_of_wf (arch : Arch Rat) (ntens : Nat) (ti : TInfo) (m : Mapping Nat)
       cases r with
       | nil =>
         simp only [wfLoops, List.all_eq_true, beq_iff_eq] at hl
+        refine ⟨?_, rfl⟩
         intro rv _
         simp only [List.getD]
         cases h : shape[rv]? with
